@@ -13,6 +13,7 @@ import (
 	"io"
 	"net"
 	"net/http"
+	"net/http/httputil"
 	"os"
 	"path/filepath"
 	"strings"
@@ -70,8 +71,62 @@ type backend struct {
 	hits int
 }
 
+// memListener is an in-memory listener (net.Pipe connections): the request lattice of part (a) would otherwise leave
+// tens of thousands of loopback sockets in TIME_WAIT and exhaust the ephemeral ports for the checks that follow.
+type memListener struct {
+	ch     chan net.Conn
+	closed chan struct{}
+	once   sync.Once
+}
+
+type memAddr struct{}
+
+func (memAddr) Network() string { return "mem" }
+func (memAddr) String() string  { return "mem" }
+
+func newMemListener() *memListener {
+	return &memListener{ch: make(chan net.Conn), closed: make(chan struct{})}
+}
+func (l *memListener) Accept() (net.Conn, error) {
+	select {
+	case c := <-l.ch:
+		return c, nil
+	case <-l.closed:
+		return nil, net.ErrClosed
+	}
+}
+func (l *memListener) Close() error   { l.once.Do(func() { close(l.closed) }); return nil }
+func (l *memListener) Addr() net.Addr { return memAddr{} }
+func (l *memListener) Dial() (net.Conn, error) {
+	a, b := net.Pipe()
+	select {
+	case l.ch <- b:
+		return a, nil
+	case <-l.closed:
+		return nil, net.ErrClosed
+	case <-time.After(3 * time.Second):
+		return nil, fmt.Errorf("mem listener: accept queue stuck")
+	}
+}
+
+// newMemBackend is newBackend on an in-memory listener.
+func newMemBackend(name string) *backend {
+	b := &backend{name: name, ln: newMemListener()}
+	go http.Serve(b.ln, http.HandlerFunc(func(w http.ResponseWriter, r *http.Request) {
+		b.mu.Lock()
+		b.hits++
+		b.mu.Unlock()
+		io.WriteString(w, name)
+	}))
+	return b
+}
+
 func newBackend(name string) *backend {
 	l, err := net.Listen("tcp", "127.0.0.1:0")
+	for i := 0; err != nil && i < 50; i++ {
+		time.Sleep(100 * time.Millisecond) // ephemeral ports momentarily exhausted by closed connections in TIME_WAIT
+		l, err = net.Listen("tcp", "127.0.0.1:0")
+	}
 	if err != nil {
 		panic(err)
 	}
@@ -85,7 +140,12 @@ func newBackend(name string) *backend {
 	return b
 }
 func (b *backend) count() int                    { b.mu.Lock(); defer b.mu.Unlock(); return b.hits }
-func (b *backend) dial(string) (net.Conn, error) { return net.Dial("tcp", b.ln.Addr().String()) }
+func (b *backend) dial(string) (net.Conn, error) {
+	if ml, ok := b.ln.(*memListener); ok {
+		return ml.Dial()
+	}
+	return net.Dial("tcp", b.ln.Addr().String())
+}
 func (b *backend) addr() string                  { return b.ln.Addr().String() }
 
 // ---- (a) http vhost ----
@@ -114,17 +174,22 @@ type vcase struct {
 
 func runVhost(vc vcase) string {
 	rp := vhost.NewHTTPReverseProxy(vhost.HTTPReverseProxyOptions{ResponseHeaderTimeoutS: 5}, vhost.NewRouters())
-	l, err := net.Listen("tcp", "127.0.0.1:0")
-	if err != nil {
-		return ""
-	}
+	l := newMemListener()
 	srv := &http.Server{Handler: rp}
 	go srv.Serve(l)
 	defer srv.Close()
+	defer func() {
+		// no idle backend connections left behind in the reverse proxy's transport
+		if p, ok := peek.F(rp, "proxy").Interface().(*httputil.ReverseProxy); ok {
+			if tr, ok := p.Transport.(*http.Transport); ok {
+				tr.CloseIdleConnections()
+			}
+		}
+	}()
 	backs := map[int]*backend{}
 	for _, i := range vc.Table {
 		r := routePool[i]
-		b := newBackend(r.Name)
+		b := newMemBackend(r.Name)
 		defer b.ln.Close()
 		backs[i] = b
 		if err := rp.Register(vhost.RouteConfig{Domain: r.Host, Location: r.Loc, RouteByHTTPUser: r.ByUser, Username: r.User, Password: r.Pw, CreateConnFn: b.dial}); err != nil {
@@ -134,7 +199,7 @@ func runVhost(vc vcase) string {
 	status, challenge := 0, ""
 	if vc.Proto == "h2c" {
 		tr := &http2.Transport{AllowHTTP: true, DialTLSContext: func(ctx context.Context, network, addr string, _ *tls.Config) (net.Conn, error) {
-			return net.Dial("tcp", l.Addr().String())
+			return l.Dial()
 		}}
 		req, _ := http.NewRequest(vc.Method, "http://h.example.com"+strings.TrimPrefix(vc.Target, "http://h.example.com"), nil)
 		if v := credVariants[vc.Auth]; v != "" {
@@ -153,7 +218,7 @@ func runVhost(vc vcase) string {
 		cancel()
 		tr.CloseIdleConnections()
 	} else {
-		c, err := net.Dial("tcp", l.Addr().String())
+		c, err := l.Dial()
 		if err != nil {
 			return ""
 		}
@@ -780,7 +845,16 @@ func main() {
 		if c.Quick() && len(tb) == 3 && ti%3 != 0 {
 			continue // quick: every third 3-route table; all 1- and 2-route tables
 		}
+		hasLoc := false
+		for _, ri := range tb {
+			if routePool[ri].Loc != "" {
+				hasLoc = true
+			}
+		}
 		for _, tg := range targets {
+			if strings.Contains(tg, "%61") && !hasLoc {
+				continue // the percent-encoded location only matters for tables with a location-scoped route
+			}
 			for _, a := range credOrder {
 				for _, p := range credOrder {
 					for _, m := range []string{"GET", "POST"} {
